@@ -222,6 +222,7 @@ def _chunks(full):
 CHILD = r'''
 import sys, json, os
 sys.path.insert(0, %(repo)r)
+sys.path.insert(0, %(root)r)
 import twosigma.memento as m
 from twosigma.memento.storage_filesystem import FilesystemStorageBackend
 env = m.Environment(name="vp", base_dir=%(root)r, repos=[])
@@ -229,6 +230,8 @@ env.default_cluster.storage = FilesystemStorageBackend(path=os.path.join(%(root)
 m.Environment.set(env)
 import collections
 _trace = collections.deque()
+import builtins
+builtins._vp_trace = _trace  # bodies defined in other modules of the program log here
 src = open(%(src)r).read()
 import types
 mod = types.ModuleType("vpchild"); mod.__package__ = ""; mod.__file__ = %(src)r
@@ -259,8 +262,24 @@ PROGRAMS = [
     ("cycle",
      "@m.memento_function\ndef a(x=0):\n    _trace.append('a')\n    return b(x + 1) if x < 2 else x\n\n"
      "@m.memento_function\ndef b(x=0):\n    _trace.append('b')\n    return a(x + 1) if x < 2 else x\n", ["a", "b"]),
+    # same-named module variables / helpers with different values in two modules of one dependency tree (rules that tie on type and
+    # symbol name), several of them so that some set order differs between seeds
+    ("same-named-globals-in-several-modules",
+     "import vpm_a, vpm_b, vpm_c, vpm_d\n"
+     "@m.memento_function\ndef f(x=1):\n    _trace.append('f')\n    return vpm_a.helper() + vpm_b.helper() + vpm_c.helper() + vpm_d.helper() + x\n",
+     ["f"],
+     {"vpm_%s.py" % n: "K = %d\nLIMIT = %d\ndef helper():\n    return K + LIMIT\n" % (i + 1, 10 * (i + 1)) for i, n in enumerate("abcd")}),
 ]
 SEEDS = ["0", "1", "2", "12345"]
+
+
+def write_files(root, files):
+    """extra modules / packages of a program: {relative path: text}"""
+    for rel, text in (files or {}).items():
+        path = os.path.join(root, rel)
+        os.makedirs(os.path.dirname(path), exist_ok=True)
+        with open(path, "w") as f:
+            f.write(text)
 
 
 def run_child(root, src_path, roots, seed):
@@ -294,9 +313,10 @@ def second_process(pi: int, s1: int, s2: int):
         import shutil
         import tempfile
 
-        name, src, roots = PROGRAMS[pi]
+        name, src, roots = PROGRAMS[pi][:3]
         root = tempfile.mkdtemp(prefix="vp-c03-", dir="/dev/shm")
         try:
+            write_files(root, PROGRAMS[pi][3] if len(PROGRAMS[pi]) > 3 else None)
             sp = os.path.join(root, "prog.py")
             with open(sp, "w") as f:
                 f.write(src)
@@ -335,6 +355,14 @@ ORDER_PROGRAMS = [
      ["CFG['b'] = {'y': 1, 'x': [1, 2]}\n", "CFG['a'] = {'q': None, 'p': 'v'}\n"],
      "@m.memento_function\ndef g(x=1):\n    _trace.append('g')\n    return len(CFG) + x\n\n"
      "@m.memento_function\ndef f(x=1):\n    _trace.append('f')\n    return g(x) + len(CFG['a'])\n", ["f", "g"]),
+    # a memento function in package vpP depending on one in package vpQ that uses a plain helper of ITS package; unrelated functions are
+    # defined before / after (generation bumps), roots queried in either order
+    ("two-packages-with-a-helper-in-the-callee's-package",
+     "from vpQ import g\nfrom vpP import f\n",
+     ["@m.memento_function\ndef later1(x=1):\n    return x\n", "@m.memento_function\ndef later2(x=2):\n    return x\n", "unused_%d = f.version() if False else 0\n" % 1],
+     "", ["f", "g"],
+     {"vpQ/__init__.py": "import twosigma.memento as m\ndef qhelper(x):\n    return x * 7\n\n@m.memento_function\ndef g(x=1):\n    __import__('builtins')._vp_trace.append('g')\n    return qhelper(x)\n",
+      "vpP/__init__.py": "import twosigma.memento as m\nfrom vpQ import g\n\n@m.memento_function\ndef f(x=1):\n    __import__('builtins')._vp_trace.append('f')\n    return g(x) + 1\n"}),
 ]
 
 
@@ -351,7 +379,8 @@ ORDER_PROGRAMS = [
     choice_vars=4,
 )
 def second_process_orders(pi: int, perm: int, rev_roots: bool, sp: int):
-    name, head, chunks, tail, roots = ORDER_PROGRAMS[pi]
+    name, head, chunks, tail, roots = ORDER_PROGRAMS[pi][:5]
+    extra_files = ORDER_PROGRAMS[pi][5] if len(ORDER_PROGRAMS[pi]) > 5 else None
     perms = list(itertools.permutations(range(len(chunks))))
     perm = pick(perm, len(perms))
     sp = pick(sp, 3)
@@ -364,6 +393,7 @@ def second_process_orders(pi: int, perm: int, rev_roots: bool, sp: int):
 
         root = tempfile.mkdtemp(prefix="vp-c03o-", dir="/dev/shm")
         try:
+            write_files(root, extra_files)
             sp1, sp2 = os.path.join(root, "prog1.py"), os.path.join(root, "prog2.py")
             with open(sp1, "w") as f:
                 f.write(head + "".join(chunks) + tail)
